@@ -45,6 +45,68 @@ def R1_who_may_write(ctx):
     ctx.check(n >= 3, "matcher-live", "the file-write matcher found only %d sites (expected the sink's writes); the rule would pass vacuously" % n, None)
 
 
+def _rust_bytes(lit):
+    """the bytes of a Rust byte-string literal as the extractor prints it (b"\\xc0\\x01\\n\\x00")"""
+    m = re.match(r'^b"(.*)"$', lit, re.S)
+    if not m:
+        return None
+    body = m.group(1)
+    out = bytearray()
+    i = 0
+    esc = {"n": 10, "r": 13, "t": 9, "\\": 92, '"': 34, "'": 39, "0": 0}
+    while i < len(body):
+        ch = body[i]
+        if ch == "\\" and i + 1 < len(body):
+            nx = body[i + 1]
+            if nx == "x":
+                out.append(int(body[i + 2:i + 4], 16)); i += 4
+            elif nx in esc:
+                out.append(esc[nx]); i += 2
+            else:
+                return None
+        else:
+            out.extend(ch.encode("utf-8")); i += 1
+    return bytes(out)
+
+
+def fmt_template_items(data):
+    """[("arg", options) | ("lit", text)] of the `fmt::Arguments::new(template, args)` that `data` is, or None.
+    Template encoding of this toolchain (core::fmt::Arguments): 0 = end; 1..=0x7f = literal of that many bytes; 0x80 = literal
+    with a u16 length; >= 0xc0 = the next argument, the low bits saying which of flags/width/precision/index follow."""
+    t = data
+    if not (t[0] == "call" and re.search(r"fmt::Arguments(::<[^>]*>)?::new$", t[1]) and len(t[2]) == 2 and t[2][0][0] == "const"):
+        return None
+    raw = _rust_bytes(t[2][0][2])
+    if raw is None:
+        return None
+    items = []
+    i = 0
+    while i < len(raw):
+        b0 = raw[i]
+        if b0 == 0:
+            return items if i == len(raw) - 1 else None
+        if b0 < 0x80:
+            items.append(("lit", raw[i + 1:i + 1 + b0].decode("utf-8", "replace"))); i += 1 + b0
+        elif b0 == 0x80:
+            n = raw[i + 1] | (raw[i + 2] << 8)
+            items.append(("lit", raw[i + 3:i + 3 + n].decode("utf-8", "replace"))); i += 3 + n
+        elif b0 >= 0xc0:
+            opts = b0 & 0x3f
+            i += 1
+            extra = (4 if opts & 1 else 0) + (2 if opts & 2 else 0) + (2 if opts & 4 else 0) + (2 if opts & 8 else 0)
+            items.append(("arg", raw[i:i + extra])); i += extra
+        else:
+            return None
+    return None
+
+
+def fmt_template_args(data):
+    a = data[2][1]
+    if a[0] == "array":
+        return [x[2][0] if x[0] == "call" and len(x[2]) == 1 else x for x in a[1]]
+    return None
+
+
 def R2_locked_row(ctx):
     """C19.R2 one locked, whole-row write per response"""
     F = ctx.F
@@ -75,6 +137,20 @@ def R2_locked_row(ctx):
     data = nosite(deep_strip(tm.operand(w.args[1], w.bb)))
     ctx.check(contains(data, lambda s: s == row) and b.dominates(fm.bb, w.bb), "whole-row-formatted-first", "the written data is not the complete row returned by format_response (computed before the write)", w.where(), detail="row = format_response(response); writeln!(file, row)")
     ctx.check(nosite(deep_strip(tm.operand(fm.args[1], fm.bb))) == ("arg", 2) and unmut(nosite(deep_strip(tm.operand(fm.args[0], fm.bb)))) == ("field", ("variant", ("arg", 1), "File"), "format"), "format-args", "the row is not format.format_response(response) of this sink's format", fm.where())
+    # the record is terminated inside the same write: what is written is <row> followed by a line break and nothing else. The
+    # file is opened in append mode and outlives the sink (a second run, a second process), so a separator written *before* the
+    # next row (or only by close()) leaves the last record of every run unterminated and glues the first record of the next
+    # run onto it (round 6).  Read from the format template of the one write_fmt: [placeholder(row), literal ending in "\n"].
+    items = fmt_template_items(data)
+    okt = False
+    shape = "the written data is not a format template"
+    if items is not None:
+        shape = " ".join("{}" if k == "arg" else repr(v) for k, v in items)
+        okt = len(items) == 2 and items[0][0] == "arg" and items[1][0] == "lit" and items[1][1] in ("\n", "\r\n")
+        if okt:
+            a0 = fmt_template_args(data)
+            okt = a0 is not None and len(a0) == 1 and contains(a0[0], lambda s_: s_ == row)
+    ctx.check(okt, "record-terminated-in-the-same-write", "the one write of a record is not `<row>\\n` (template: %s): a record that is not terminated by its own write is glued to whatever is appended next" % shape, w.where(), detail='writeln!(file, "{}", row)')
     ef = error_flow(F, b, w, tm)
     ctx.check(ef["ok"], "io-error-returned", "an I/O error of the row write is not returned: %s" % ef["detail"], w.where(), detail=ef["detail"])
     ef = error_flow(F, b, fm, tm)
